@@ -207,6 +207,7 @@ func init() {
 			{Name: "VC11_Predefined", NeedReach: []string{"end"}},
 			{Name: "VC11_LegacyWriteRead", Params: map[string]int{"vsymC11Name": 4, "vsymC11Value": 4096}, NeedReach: []string{"end", "probe-error"}},
 			{Name: "VC11_LegacySequence", NeedReach: []string{"end"}},
+			{Name: "VC11_LegacyNamed", NeedReach: []string{"end"}},
 			{Name: "VC11_WriteSequence", Params: map[string]int{"vsymC11Name": 2, "vsymC11Value": 8}, NeedReach: []string{"end"}},
 		},
 		Thorough: []HarnessSpec{
@@ -215,12 +216,13 @@ func init() {
 			{Name: "VC11_Read", Params: map[string]int{"vsymC11Name": 8, "vsymC11Value": 1 << 16}, NeedReach: []string{"end", "absent", "short", "wrongattrs"}},
 			{Name: "VC11_Predefined", NeedReach: []string{"end"}},
 			{Name: "VC11_LegacySequence", NeedReach: []string{"end"}},
+			{Name: "VC11_LegacyNamed", NeedReach: []string{"end"}},
 			{Name: "VC11_WriteSequence", Params: map[string]int{"vsymC11Name": 2, "vsymC11Value": 64}, NeedReach: []string{"end"}},
 		},
 		Bounds: []string{"object API (EFIFS.WriteVar / GetVarWithAttributes over fswrapper): symbolic GUID (all 2^128), symbolic 32-bit attribute mask, name = 4 (quick) / 8 symbolic ASCII letters or digits, value / stored file = symbolic bytes of symbolic length <= 4096 (quick) / 65536; every predefined variable definition by name",
 			"file system = recording afero.Fs written in the harness (interpreted): the complete operation trace is asserted",
 			"legacy package-level API (efi/attributes.WriteEfivarsWithGuid / ReadEfivarsWithGuid over efi/fs): same trace assertions and read-back, same symbolic inputs",
-			"histories of two writes (both APIs): independent symbolic attribute masks and values; the second write's open mode and buffer depend on its own arguments only"},
+			"name-based legacy wrappers (WriteEfivars / ReadEfivars) for 17 variable names (the four image security databases, PK, KEK, the *Default copies, boot variables, near-miss names): the vendor GUID in the path is the one the UEFI specification assigns to that name", "histories of two writes (both APIs): independent symbolic attribute masks and values; the second write's open mode and buffer depend on its own arguments only"},
 		Outside:     []string{"the immutable-flag ioctl of the legacy API is an OS stub (any flag word or error); the attribute-checked typed readers of package efi (GetPK, ...) are not harnessed", "efivars directories other than the default", "names with characters outside [A-Za-z0-9] (path.Clean is interpreted; such characters are excluded by assumption)"},
 		Assumptions: commonAssumptions,
 	}
@@ -230,7 +232,7 @@ func init() {
 		Thorough: []HarnessSpec{{Name: "VC12_PlainRegister", Params: map[string]int{"vsymC12Max": 40}, MaxPaths: 2000000, TimeoutSec: 3000, NeedReach: []string{"end"}},
 			{Name: "VC12_SignedRegister", Params: map[string]int{"vsymC12Max": 100}, ConcAlloc: true, MaxPaths: 2000000, TimeoutSec: 3000, NeedReach: []string{"end"}}},
 		Bounds: []string{"inductive step on the in-memory store (real afero.MemMapFs interpreted): variable A holds an arbitrary previous value, variable B an arbitrary value; one plain WriteVar of a value of any length 0..8 (quick) / 0..40 bytes (all length combinations case-split, contents symbolic); read of A returns exactly the new value, B unchanged",
-			"signed step: PK / KEK / db / dbx holding an arbitrary previous value (0..6 bytes quick / 0..100); one WriteSignedUpdate (real SignEFIVariable and SignPKCS7 under the signature model) of a database with 0, 1 or 2 SHA-256 entries (symbolic); the typed read returns the payload with the descriptor removed"},
+			"signed step: PK / KEK / db / dbx holding an arbitrary previous value (0..6 bytes quick / 0..100); one WriteSignedUpdate (real SignEFIVariable and SignPKCS7 under the signature model) of a database with 0, 1 or 2 SHA-256 entries (symbolic), optionally after an earlier signed update of another variable in the same process; the typed read returns the payload with the descriptor removed"},
 		Outside:     []string{"APPEND_WRITE", "values longer than the bound", "signed payloads other than databases of 0..2 SHA-256 entries"},
 		Assumptions: commonAssumptions,
 	}
@@ -263,7 +265,7 @@ func init() {
 		},
 		Bounds: []string{"thorough tier: names of 6 characters, values up to 65536 bytes (legacy API 4096)", "write variable: every position of the call sequence OpenFile / Write / Close may fail (symbolic fault bits, all combinations), and Write may be short by any symbolic count; read variable: Open / Stat / every Read may fail", "short reads (the file delivers 4..12 stored bytes in up to two short reads without an error, both APIs): the read fails or returns exactly the stored attributes and value", "asserted: any injected fault => non-nil error, nothing decoded after a failed read; the same for the legacy package-level writer and reader of efi/attributes (values <= 16 bytes)",
 			"signer: Sign may fail (symbolic fault bit) in SignPKCS7 (3 content types), in PECOFFBinary.Sign on the shipped test image (error, no signature returned, Signatures() and Bytes() unchanged) and in WriteSignedUpdate combined with all file-system faults (failed signing writes nothing)",
-			"image reader: every one of the ReadAt calls Parse issues on the shipped test image may fail: error and no parsed object; on a doubly signed image every ReadAt call of Verify and Hash may fail (all combinations): never success, error reported, no digest"},
+			"image reader: every one of the ReadAt calls Parse issues on the shipped test image may fail: error and no parsed object; during Parse a failing ReadAt may deliver 0 or any smaller number of bytes together with its error; on a doubly signed image every ReadAt call of Verify and Hash may fail (all combinations): never success, error reported, no digest"},
 		Outside:     []string{"a failing Close after a complete read is not asserted (it does not invalidate the data read)", "images other than the shipped unsigned test image for the image-level fault harnesses (the image is concrete there; the fault positions are symbolic)"},
 		Assumptions: commonAssumptions,
 	}
